@@ -81,9 +81,9 @@ BadFails(cl, top, i, e) ==
                       union_msg |-> ({"Tried", "variants"} \subseteq words \/ {"any", "variant"} \subseteq words)])}
 
 RtTraceFails(t) ==
-  UNION {IF t.ev[i].k = "rt" THEN RtFails(t.classes, t.top, i, t.ev[i]) ELSE BadFails(t.classes, t.top, i, t.ev[i]) :
+  UNION {IF t.ev[i].k = "rt" THEN RtFails(Flat(t.classes), t.top, i, t.ev[i]) ELSE BadFails(Flat(t.classes), t.top, i, t.ev[i]) :
            i \in 1..Len(t.ev)}
-RtTraceDrift(t) == MapThenSumSet(LAMBDA i : IF t.ev[i].k = "rt" THEN RtDrift(t.classes, t.top, t.ev[i]) ELSE 0, 1..Len(t.ev))
+RtTraceDrift(t) == MapThenSumSet(LAMBDA i : IF t.ev[i].k = "rt" THEN RtDrift(Flat(t.classes), t.top, t.ev[i]) ELSE 0, 1..Len(t.ev))
 
 ----------------------------------------------------------------------------
 (* serialiser on instance graphs *)
@@ -127,7 +127,7 @@ Batch ==
 HistStep ==
   /\ T.kind = "hist" /\ l <= Len(T.h)
   /\ LET c == T.calls[CHOOSE i \in 1..Len(T.calls) : T.calls[i].id = T.h[l]] IN
-       /\ (Structure(T.classes, c, TRUE) \/ Unstructure(T.classes, c, TRUE))
+       /\ (Structure(Flat(T.classes), c, TRUE) \/ Unstructure(Flat(T.classes), c, TRUE))
        /\ fails' = IF T.res[l] = T.base[l] THEN fails
                    ELSE fails \cup {Fail(l, "C16.history_dependent",
                                          [op |-> c.op, ty |-> c.ty.k,
@@ -136,7 +136,7 @@ HistStep ==
        \* drift: the registry model's prediction for this call
        /\ ndrift' = ndrift + (IF IsExc(T.res[l]) THEN (IF IsErr(last'.res) THEN 0 ELSE 1)
                               ELSE IF c.op = "S" THEN (IF T.res[l] = last'.res THEN 0 ELSE 1)
-                              ELSE (IF IsJson(T.res[l]) /\ Diff(T.classes, c.ty, last'.res, T.res[l], FALSE) = "ok" THEN 0 ELSE 1))
+                              ELSE (IF IsJson(T.res[l]) /\ Diff(Flat(T.classes), c.ty, last'.res, T.res[l], FALSE) = "ok" THEN 0 ELSE 1))
   /\ l' = l + 1
   /\ UNCHANGED <<tid, done>>
 
